@@ -41,6 +41,8 @@ def translate(ctx):
         avail[name] = ok
         if not ok:
             ctx.notes.append(f'translator {name} failed closed ({why}); that part of C17 rests on correspondence alone in this run')
+            ctx.obligations += 1
+            ctx.problem('proof', f'gen_{name}', None, f'the source is outside the translated subset ({why}): the regenerated obligations cannot be stated')
             continue
         ctx.obligations += mod.N_OBLIGATIONS
         rc, so, se = vlib.coqc_file(out)
